@@ -278,6 +278,8 @@ def build(spec, decorate=None, on_action=None, budget=30):
       f = faults.get(str(i))
       if f == "none_exit" and sig == EXIT:
         return None                      # malformed: no status for the exit event (C24)
+      if f == "none_empty" and sig == signals.EMPTY_SIGNAL:
+        return None                      # malformed: no status for the re-query after a declined event (C24)
       if f in ("none_search", "none_search_set") and sig == SEARCH:
         if f == "none_search_set":
           p = parent[i]
